@@ -76,6 +76,16 @@ pub fn serve_raw(
     default_max_bytes: usize,
     requests: Vec<Vec<Vec<u8>>>,
 ) -> Vec<Option<RawResponse>> {
+    serve_raw_with(api, default_max_bytes, None, requests)
+}
+
+/// As `serve_raw`, with an explicit version policy.
+pub fn serve_raw_with(
+    api: ApiDescription<()>,
+    default_max_bytes: usize,
+    policy: Option<dropshot::VersionPolicy>,
+    requests: Vec<Vec<Vec<u8>>>,
+) -> Vec<Option<RawResponse>> {
     let rt = tokio::runtime::Builder::new_multi_thread()
         .worker_threads(2)
         .enable_all()
@@ -88,7 +98,11 @@ pub fn serve_raw(
             default_request_body_max_bytes: default_max_bytes,
             ..Default::default()
         };
-        let server = ServerBuilder::new(api, (), log).config(config).start().expect("server start");
+        let mut builder = ServerBuilder::new(api, (), log).config(config);
+        if let Some(p) = policy {
+            builder = builder.version_policy(p);
+        }
+        let server = builder.start().expect("server start");
         let addr = server.local_addr();
         let mut out = vec![];
         for chunks in requests {
